@@ -14,6 +14,9 @@ from . import shrink as shrink_mod
 
 VERIF_DIR = os.path.dirname(os.path.dirname(os.path.abspath(__file__)))
 RUN_TIMEOUT_S = int(os.environ.get("VERIF_RUN_TIMEOUT", "300"))
+# Off by default. The sensitivity matrix (tools/sensitivity_report.py) sets it: when a patched copy is
+# known to be wrong, the batch stops scheduling further chunks after the first violation.
+STOP_ON_FIRST = os.environ.get("VERIF_STOP_ON_FIRST") == "1"
 
 
 class Unbuildable(Refused):
@@ -180,6 +183,9 @@ def _run_tasks_forked(tasks, jobs):
                 proc, idx = live.pop(conn)
                 try:
                     done[idx] = conn.recv()
+                    if STOP_ON_FIRST and any(r_.get("status") == "violation"
+                                             for r_ in done[idx]["runs"]):
+                        pending.clear()      # regression harness only: one detection is enough
                 except EOFError as e:
                     raise HarnessError(f"worker for runs {tasks[idx][3][0]}..{tasks[idx][3][-1]} "
                                        f"died (watchdog or crash)") from e
@@ -189,7 +195,7 @@ def _run_tasks_forked(tasks, jobs):
     finally:
         for conn, (proc, idx) in live.items():
             proc.kill()
-    return [done[i] for i in range(len(tasks))]
+    return [done[i] for i in sorted(done)]
 
 
 def run_batch(world, prop, verif_seed, n_runs, jobs, keep_first=3):
